@@ -130,5 +130,29 @@ Proof.
     cbn [andb]; split; intros H; try discriminate H; try reflexivity; lia.
 Qed.
 
+(* The printed text has no leading zero (so an assembler that reads a leading 0 as an octal or
+   0x/0b/0o prefix, as Go's ParseUint with base 0 does, still reads the decimal value). *)
+Lemma dec_digits_head f : forall n acc, 0 < n -> n < 2 ^ N.of_nat f ->
+  exists d t, dec_digits (S f) n acc = ascii_of_N (48 + d) :: t /\ 0 < d /\ d < 10.
+Proof.
+  induction f as [|f IH]; intros n acc Hp H.
+  - cbn in H. lia.
+  - cbn [dec_digits]. pose proof (N.mod_lt n 10 ltac:(discriminate)) as Hm.
+    destruct (N.ltb_spec n 10) as [L|L].
+    + exists (n mod 10), acc. rewrite N.mod_small by assumption. repeat split; assumption.
+    + apply IH; [|now apply half_bound].
+      apply N.div_str_pos. lia.
+Qed.
+
+Lemma N_to_dec_no_leading_zero n : 0 < n ->
+  exists d t, list_ascii_of_string (N_to_dec n) = ascii_of_N (48 + d) :: t /\ 0 < d /\ d < 10.
+Proof.
+  intros H. rewrite N_to_dec_list. apply dec_digits_head; [exact H|].
+  rewrite N2Nat.id. apply N.size_gt.
+Qed.
+
+Lemma N_to_dec_zero : N_to_dec 0 = "0"%string.
+Proof. reflexivity. Qed.
+
 Example int_example : parse_stmt [] (tokens_of_line "int 18446744073709551615") = push_int 18446744073709551615.
 Proof. vm_compute. reflexivity. Qed.
